@@ -17,7 +17,7 @@ import (
 	"google.golang.org/protobuf/types/known/timestamppb"
 
 	"go.6river.tech/mmmbbb/actions"
-	"go.6river.tech/mmmbbb/ent"
+	"go.6river.tech/mmmbbb/services"
 
 	"verif/sut"
 )
@@ -481,35 +481,33 @@ func (r *Runner) Step(op Op) bool {
 // RunJob runs one background maintenance job once, the way the service does
 // (one transaction around action.Execute).
 func RunJob(ctx context.Context, s *sut.SUT, kind string, minAge time.Duration, batch int) (int, error) {
-	p := actions.PruneCommonParams{MinAge: minAge, MaxDelete: batch}
-	type ja interface {
-		Execute(context.Context, *ent.Tx) error
-		Results() (actions.PruneCommonResults, bool)
+	name := "prune-" + kind
+	if kind == "expired-subscriptions" {
+		name = "delete-expired-subscriptions"
 	}
-	var a ja
-	switch kind {
-	case "completed-deliveries":
-		a = actions.NewPruneCompletedDeliveries(p)
-	case "expired-deliveries":
-		a = actions.NewPruneExpiredDeliveries(p)
-	case "completed-messages":
-		a = actions.NewPruneCompletedMessages(p)
-	case "deleted-subscription-deliveries":
-		a = actions.NewPruneDeletedSubscriptionDeliveries(p)
-	case "deleted-subscriptions":
-		a = actions.NewPruneDeletedSubscriptions(p)
-	case "deleted-topics":
-		a = actions.NewPruneDeletedTopics(p)
-	case "expired-subscriptions":
-		a = actions.NewDeleteExpiredSubscriptions(p)
-	default:
-		return 0, fmt.Errorf("unknown job %q", kind)
+	if minAge <= 0 {
+		// the service's ApplyDefaults reads 0 as "one hour"; the virtual clock
+		// ticks 1 us per read, so 1 ns is the same cutoff as 0
+		minAge = time.Nanosecond
 	}
-	err := s.Client.DoCtxTx(ctx, nil, a.Execute)
-	if res, ok := a.Results(); ok && err == nil {
-		return res.NumDeleted, nil
+	if batch <= 0 {
+		batch = 100
 	}
-	return 0, err
+	key := fmt.Sprintf("%s/%d/%d", name, minAge, batch)
+	run, ok := s.JobRunner(key)
+	if !ok {
+		var err error
+		run, err = services.VerifPruneRunner(ctx, name, s.Client, minAge, batch)
+		if err != nil {
+			return 0, err
+		}
+		s.SetJobRunner(key, run)
+	}
+	n, err := run(ctx)
+	if err != nil {
+		return 0, err
+	}
+	return n, nil
 }
 
 // Drain pulls everything that is owed, acknowledging what arrives and
